@@ -191,26 +191,26 @@ theorem rewindAbove_spec {U : Nat → Blk} {m : Mgr} (hI : Core U m) (h other : 
       simp [hgt, this]
 
 /-- phase 3 of `reorgPath`: two stored blocks at the same height are rewound in lockstep to
-their first common ancestor -/
+their *first* common ancestor: every pair visited before the meeting differs -/
 theorem rewindBoth_spec {U : Nat → Blk} {m : Mgr} (hI : Core U m) :
     ∀ (fuel a b : Nat) (rev app : List Nat), m.states a = true → m.states b = true →
       (U a).height = (U b).height → (U a).height ≤ fuel →
       ∃ n, n ≤ (U a).height ∧
         rewindBoth U m none fuel a b rev app =
           .ok (rev ++ (List.range n).map (fun k => anc U k a), app ++ (List.range n).map (fun k => anc U k b)) ∧
-        anc U n a = anc U n b := by
+        anc U n a = anc U n b ∧ ∀ k, k < n → anc U k a ≠ anc U k b := by
   intro fuel
   induction fuel with
   | zero =>
     intro a b rev app ha hb hh hf
     have ha0 := hI.eq_zero_of_height ha (by omega)
     have hb0 := hI.eq_zero_of_height hb (by omega)
-    exact ⟨0, by omega, by simp [rewindBoth, ha0, hb0], by simp [ha0, hb0]⟩
+    exact ⟨0, by omega, by simp [rewindBoth, ha0, hb0], by simp [ha0, hb0], fun k hk => by omega⟩
   | succ fuel ih =>
     intro a b rev app ha hb hh hf
     unfold rewindBoth
     by_cases hab : a = b
-    · exact ⟨0, by omega, by simp [hab], by simp [hab]⟩
+    · exact ⟨0, by omega, by simp [hab], by simp [hab], fun k hk => by omega⟩
     · have hane : a ≠ 0 := by
         intro h0; subst h0
         exact hab (hI.eq_zero_of_height hb (by have := hI.h0; omega)).symm
@@ -219,11 +219,15 @@ theorem rewindBoth_spec {U : Nat → Blk} {m : Mgr} (hI : Core U m) :
         exact hab (hI.eq_zero_of_height ha (by have := hI.h0; omega))
       obtain ⟨hpa, hha⟩ := hI.closed a ha hane
       obtain ⟨hpb, hhb⟩ := hI.closed b hb hbne
-      obtain ⟨n, hn, hrun, heq⟩ := ih (par U a) (par U b) (rev ++ [a]) (app ++ [b]) hpa hpb (by omega) (by omega)
-      refine ⟨n + 1, by omega, ?_, by simpa [anc_succ] using heq⟩
-      simp only [hab, if_false, rewind_ok (hI.header ha), rewind_ok (hI.header hb)]
-      rw [hrun, List.range_succ_eq_map, List.map_cons, List.map_map]
-      simp [anc_succ, Function.comp_def]
+      obtain ⟨n, hn, hrun, heq, hmin⟩ := ih (par U a) (par U b) (rev ++ [a]) (app ++ [b]) hpa hpb (by omega) (by omega)
+      refine ⟨n + 1, by omega, ?_, by simpa [anc_succ] using heq, ?_⟩
+      · simp only [hab, if_false, rewind_ok (hI.header ha), rewind_ok (hI.header hb)]
+        rw [hrun, List.range_succ_eq_map, List.map_cons, List.map_map]
+        simp [anc_succ, Function.comp_def]
+      · intro k hk
+        cases k with
+        | zero => exact hab
+        | succ k => rw [anc_succ, anc_succ]; exact hmin k (by omega)
 
 theorem map_anc_range_add (U : Nat → Blk) (d n a : Nat) :
     (List.range (d + n)).map (fun k => anc U k a) =
@@ -235,15 +239,21 @@ theorem map_anc_range_add (U : Nat → Blk) (d n a : Nat) :
   simp only [Function.comp_def]
   rw [Nat.add_comm, anc_add]
 
-/-- **`reorgPath` is correct**: for two stored blocks it returns the first `na` ancestors of `a`
-(to revert, in order) and the first `nb` ancestors of `b` reversed (to apply, in order), which
-meet in a common ancestor; it never fails. -/
-theorem reorgPath_spec {U : Nat → Blk} {m : Mgr} (hI : Core U m) {a b : Nat}
+/-- **`reorgPath` is correct and minimal**: for two stored blocks it returns the first `na`
+ancestors of `a` (to revert, in order) and the first `nb` ancestors of `b` reversed (to apply, in
+order), which meet in a common ancestor; it never fails.  `na = da + n`, `nb = db + n` where
+`da`/`db` are the steps of phases 1/2 (one of them is 0, afterwards both pointers are at the same
+height) and `n` the lockstep steps of phase 3, in which every pair visited before the meeting
+differs — the meeting point is the *first* common ancestor. -/
+theorem reorgPath_spec_min {U : Nat → Blk} {m : Mgr} (hI : Core U m) {a b : Nat}
     (ha : m.states a = true) (hb : m.states b = true) :
     ∃ na nb, na ≤ (U a).height ∧ nb ≤ (U b).height ∧
       reorgPath U m a b none =
         .ok ((List.range na).map (fun k => anc U k a), ((List.range nb).map (fun k => anc U k b)).reverse) ∧
-      anc U na a = anc U nb b := by
+      anc U na a = anc U nb b ∧
+      ∃ da db n, na = da + n ∧ nb = db + n ∧ (da = 0 ∨ db = 0) ∧
+        (U a).height - da = (U b).height - db ∧
+        ∀ k, k < n → anc U (da + k) a ≠ anc U (db + k) b := by
   unfold reorgPath
   simp only []
   rw [rewindAbove_spec hI _ _ _ a [] ha (by omega)]
@@ -252,16 +262,54 @@ theorem reorgPath_spec {U : Nat → Blk} {m : Mgr} (hI : Core U m) {a b : Nat}
   rw [rewindAbove_spec hI _ _ _ b [] hb (by omega)]
   simp only [List.nil_append]
   obtain ⟨hsb1, hhb1⟩ := hI.anc_state hb ((U b).height - (U (anc U ((U a).height - (U b).height) a)).height) (by omega)
-  obtain ⟨n, hn, hrun, heq⟩ := rewindBoth_spec hI ((U a).height + (U b).height + 2) _ _
+  obtain ⟨n, hn, hrun, heq, hmin⟩ := rewindBoth_spec hI ((U a).height + (U b).height + 2) _ _
     ((List.range ((U a).height - (U b).height)).map (fun k => anc U k a))
     ((List.range ((U b).height - (U (anc U ((U a).height - (U b).height) a)).height)).map (fun k => anc U k b))
     hsa1 hsb1 (by omega) (by omega)
   rw [hrun]
   refine ⟨((U a).height - (U b).height) + n, ((U b).height - (U (anc U ((U a).height - (U b).height) a)).height) + n,
-    by omega, by omega, ?_, ?_⟩
+    by omega, by omega, ?_, ?_, (U a).height - (U b).height,
+    (U b).height - (U (anc U ((U a).height - (U b).height) a)).height, n, rfl, rfl, by omega, by omega, ?_⟩
   · rw [map_anc_range_add, map_anc_range_add]
   · rw [Nat.add_comm _ n, anc_add, Nat.add_comm _ n, anc_add]
     exact heq
+  · intro k hk
+    rw [Nat.add_comm _ k, anc_add, Nat.add_comm _ k, anc_add]
+    exact hmin k hk
+
+/-- the statement most users need: the two legs and the common ancestor -/
+theorem reorgPath_spec {U : Nat → Blk} {m : Mgr} (hI : Core U m) {a b : Nat}
+    (ha : m.states a = true) (hb : m.states b = true) :
+    ∃ na nb, na ≤ (U a).height ∧ nb ≤ (U b).height ∧
+      reorgPath U m a b none =
+        .ok ((List.range na).map (fun k => anc U k a), ((List.range nb).map (fun k => anc U k b)).reverse) ∧
+      anc U na a = anc U nb b := by
+  obtain ⟨na, nb, h1, h2, h3, h4, _⟩ := reorgPath_spec_min hI ha hb
+  exact ⟨na, nb, h1, h2, h3, h4⟩
+
+/-- the meeting point `reorgPath` finds is the **lowest** common ancestor: no common ancestor is
+reached with fewer steps on either side (and both legs end at the same height) -/
+theorem reorgPath_least {U : Nat → Blk} {m : Mgr} (hI : Core U m) {a b : Nat}
+    (ha : m.states a = true) (hb : m.states b = true) :
+    ∃ na nb, na ≤ (U a).height ∧ nb ≤ (U b).height ∧
+      reorgPath U m a b none =
+        .ok ((List.range na).map (fun k => anc U k a), ((List.range nb).map (fun k => anc U k b)).reverse) ∧
+      anc U na a = anc U nb b ∧ (U a).height - na = (U b).height - nb ∧
+      ∀ i k, i ≤ (U a).height → k ≤ (U b).height → anc U i a = anc U k b → na ≤ i ∧ nb ≤ k := by
+  obtain ⟨na, nb, h1, h2, h3, h4, da, db, n, e1, e2, hz, hh, hmin⟩ := reorgPath_spec_min hI ha hb
+  refine ⟨na, nb, h1, h2, h3, h4, by omega, ?_⟩
+  intro i k hi hk heq
+  have hhi := (hI.anc_state ha i hi).2
+  have hhk := (hI.anc_state hb k hk).2
+  rw [heq] at hhi
+  have key : ∀ t, i = da + t → k = db + t → n ≤ t := by
+    intro t ei ek
+    apply Nat.le_of_not_lt
+    intro hlt
+    apply hmin t hlt
+    rw [← ei, ← ek]; exact heq
+  have := key (i - da) (by omega) (by omega)
+  omega
 
 /-! ### the manager invariant -/
 
